@@ -58,6 +58,9 @@ CONSTANTS Kind,     \* "udp" | "icmp"
           FullSlots,\* slots that receive every kind of open and datagrams; the others are only opened ("enc"),
                     \* closed and expired: they are the "other session" of the counter / limit / isolation properties
           GoneP,    \* peers that may go away
+          Split,    \* TRUE: the return path is two steps (datagram / echo reply read from the socket, then encrypted
+                    \* and written as a frame) - the code has no lock across them; FALSE: one step (what a sequential
+                    \* replay can drive)
           Dev, Emit
 
 AllSlots == {"A1", "A2", "A3", "B1", "B2", "B3"}
@@ -68,7 +71,8 @@ NoSlot == "-"
 Live == {"Opening", "Open"}
 DevNames == {"DevKeyedByStreamIdOnly", "DevCounterNotDecrementedOnErr", "DevCloseTwiceNotifiesTwice",
              "DevIdleCleanupKeepsRecord", "DevDatagramAfterClose", "DevLimitCheckThenAct",
-             "DevReplyToWrongAssociation", "DevCloseNotifiesWrongPeer", "DevErrKeepsSocket"}
+             "DevReplyToWrongAssociation", "DevCloseNotifiesWrongPeer", "DevErrKeepsSocket",
+             "DevEmitAfterCloseInClear"}
 ASSUME Dev \subseteq DevNames /\ Slots \subseteq AllSlots /\ FullSlots \subseteq Slots /\ GoneP \subseteq Peers /\ Kind \in {"udp", "icmp"} /\ Max > 0
 
 ById == "DevKeyedByStreamIdOnly" \in Dev
@@ -79,10 +83,13 @@ Keys == {Key(s) : s \in Slots}
 VARIABLES enabled, hup, peerUp, tab, byreq, obj, sock, rl, exp, pend, enc,
           ackN, errN, closeN, din, dout,      \* frames / datagrams attributed to the slot (peer, id)
           ndg, nerr,                           \* budgets
+          infl,                                \* the return path holds a datagram read from the socket (Split)
+          clear,                               \* frames that carried a datagram in clear although the session is "enc"
           life, why,                           \* ghosts
           last
 
-core == <<enabled, hup, peerUp, tab, byreq, obj, sock, rl, exp, pend, enc, ackN, errN, closeN, din, dout, ndg, nerr>>
+aux == <<infl, clear>>
+core == <<enabled, hup, peerUp, tab, byreq, obj, sock, rl, exp, pend, enc, ackN, errN, closeN, din, dout, ndg, nerr, aux>>
 ghost == <<life, why>>
 vars == <<core, ghost, last>>
 view == <<core, ghost>>
@@ -94,6 +101,7 @@ Init ==
   /\ tab = [k \in Keys |-> NoSlot] /\ byreq = Fn(FALSE) /\ obj = Fn("None") /\ sock = Fn(FALSE) /\ rl = Fn(FALSE)
   /\ exp = Fn(FALSE) /\ pend = Fn(FALSE) /\ enc = Fn(FALSE)
   /\ ackN = Fn(0) /\ errN = Fn(0) /\ closeN = Fn(0) /\ din = Fn(0) /\ dout = Fn(0) /\ ndg = 0 /\ nerr = 0
+  /\ infl = Fn(FALSE) /\ clear = 0
   /\ life = Fn("None") /\ why = Fn("-")
   /\ last = [act |-> "Init"]
 
@@ -117,7 +125,7 @@ OpenFail(s, m, res) ==
   /\ errN' = [errN EXCEPT ![s] = @ + 1]
   \* DevErrKeepsSocket: the key-exchange error path forgets to close the socket it created
   /\ sock' = IF "DevErrKeepsSocket" \in Dev /\ res = "err-badkey" THEN [sock EXCEPT ![s] = TRUE] ELSE sock
-  /\ UNCHANGED <<enabled, hup, peerUp, tab, byreq, obj, rl, exp, pend, enc, ackN, closeN, din, dout, ndg, ghost>>
+  /\ UNCHANGED <<aux, enabled, hup, peerUp, tab, byreq, obj, rl, exp, pend, enc, ackN, closeN, din, dout, ndg, ghost>>
   /\ last' = Act("OpenBegin", s, m, res)
 
 OpenBegin(s, m) ==
@@ -133,7 +141,7 @@ OpenBegin(s, m) ==
           /\ exp' = [exp EXCEPT ![s] = FALSE] /\ pend' = [pend EXCEPT ![s] = TRUE]
           /\ enc' = [enc EXCEPT ![s] = (m = "enc")]
           /\ life' = [life EXCEPT ![s] = "Opening"]
-          /\ UNCHANGED <<enabled, hup, peerUp, rl, ackN, errN, closeN, din, dout, ndg, nerr, why>>
+          /\ UNCHANGED <<aux, enabled, hup, peerUp, rl, ackN, errN, closeN, din, dout, ndg, nerr, why>>
           /\ last' = Act("OpenBegin", s, m, "pending")
 
 (* ---- HandleOpen, second part: WriteOpenAck returns -------------------------- *)
@@ -155,34 +163,42 @@ OpenAck(s) ==
                  THEN UNCHANGED <<tab, byreq, obj, sock, rl>>
                  ELSE RemoveAt(s, Look(s))
             /\ last' = Act("OpenAck", s, "-", "err-ack")
-  /\ UNCHANGED <<enabled, hup, peerUp, enc, errN, closeN, din, dout, ndg, nerr>>
+  /\ UNCHANGED <<aux, enabled, hup, peerUp, enc, errN, closeN, din, dout, ndg, nerr>>
 
 (* ---- DATAGRAM / ECHO frame from the owner peer ------------------------------ *)
+\* the reply of an answered echo (icmp): one step, or - Split - read now by the waiting goroutine and emitted later
+Reply(f, rep) ==
+  IF ~rep THEN UNCHANGED <<dout, infl>>
+  ELSE IF Split THEN infl' = [infl EXCEPT ![f] = TRUE] /\ UNCHANGED dout
+  ELSE dout' = [dout EXCEPT ![f] = @ + 1] /\ UNCHANGED infl
+
 DgIn(s, rep) ==
   /\ CanSend(s) /\ s \in FullSlots /\ ndg < MaxDg /\ ndg' = ndg + 1
   /\ (Kind = "udp" => ~rep)
+  /\ (rep /\ Split /\ Look(s) # NoSlot => ~infl[Look(s)])
   /\ LET f == Look(s) IN
      IF f = NoSlot
        THEN IF "DevDatagramAfterClose" \in Dev /\ obj[s] = "Closed"
               THEN \* the closed object is still used (stale reference, socket not shut)
                    /\ din' = [din EXCEPT ![s] = @ + 1]
                    /\ dout' = IF rep THEN [dout EXCEPT ![s] = @ + 1] ELSE dout
-                   /\ UNCHANGED exp
+                   /\ UNCHANGED <<exp, infl>>
                    /\ last' = Act("DgIn", s, IF rep THEN "rep" ELSE "-", "ok")
-              ELSE /\ UNCHANGED <<din, dout, exp>>
+              ELSE /\ UNCHANGED <<din, dout, exp, infl>>
                    /\ last' = Act("DgIn", s, IF rep THEN "rep" ELSE "-", "unknown")
        ELSE /\ exp' = [exp EXCEPT ![f] = FALSE]                   \* UpdateActivity precedes Decrypt
             /\ IF f = s \/ ~enc[f]
                  THEN /\ din' = [din EXCEPT ![f] = @ + 1]
-                      /\ dout' = IF rep THEN [dout EXCEPT ![f] = @ + 1] ELSE dout
+                      /\ Reply(f, rep)
                       /\ last' = Act("DgIn", s, IF rep THEN "rep" ELSE "-", "ok")
                  ELSE \* another slot's object (bare-id keying): the ciphertext does not authenticate
-                      /\ UNCHANGED <<din, dout>>
+                      /\ UNCHANGED <<din, dout, infl>>
                       /\ last' = Act("DgIn", s, IF rep THEN "rep" ELSE "-", "err-decrypt")
-  /\ UNCHANGED <<enabled, hup, peerUp, tab, byreq, obj, sock, rl, pend, enc, ackN, errN, closeN, nerr, ghost>>
+  /\ UNCHANGED <<enabled, hup, peerUp, tab, byreq, obj, sock, rl, pend, enc, ackN, errN, closeN, nerr, clear, ghost>>
 
 (* ---- udp: a datagram arrives at the session's socket ------------------------ *)
 DgOut(s) ==
+  /\ ~Split
   /\ Kind = "udp" /\ s \in FullSlots /\ ndg < MaxDg /\ ndg' = ndg + 1
   /\ obj[s] \in {"Open", "Closed"}                 \* the bound port is known; not while the open is pending
   /\ ~pend[s]
@@ -197,13 +213,39 @@ DgOut(s) ==
               /\ last' = Act("DgOut", s, "-", "relayed")
          ELSE /\ UNCHANGED <<dout, exp>>
               /\ last' = Act("DgOut", s, "-", "dropped")
-  /\ UNCHANGED <<enabled, hup, peerUp, tab, byreq, obj, sock, rl, pend, enc, ackN, errN, closeN, din, nerr, ghost>>
+  /\ UNCHANGED <<aux, enabled, hup, peerUp, tab, byreq, obj, sock, rl, pend, enc, ackN, errN, closeN, din, nerr, ghost>>
+
+(* ---- the return path as two steps (Split) ----------------------------------- *)
+\* udp read loop: ReadFromUDP returns a datagram (UpdateActivity follows at once)
+DgArrive(s) ==
+  /\ Split /\ Kind = "udp" /\ s \in FullSlots /\ ndg < MaxDg /\ ndg' = ndg + 1
+  /\ sock[s] /\ rl[s] /\ ~infl[s]
+  /\ infl' = [infl EXCEPT ![s] = TRUE] /\ exp' = [exp EXCEPT ![s] = FALSE]
+  /\ UNCHANGED <<clear, enabled, hup, peerUp, tab, byreq, obj, sock, rl, pend, enc, ackN, errN, closeN, din, dout, nerr,
+                 ghost>>
+  /\ last' = Act("DgArrive", s, "-", "ok")
+
+\* Encrypt + WriteDatagram / WriteEcho.  The session may have been closed in between: its key is gone.  Ideal: nothing
+\* is sent.  DevEmitAfterCloseInClear (the code: Encrypt returns its input when the key is nil): the frame is sent, in
+\* clear.
+DgEmit(s) ==
+  /\ infl[s] /\ infl' = [infl EXCEPT ![s] = FALSE]
+  /\ IF obj[s] \in Live
+       THEN /\ dout' = [dout EXCEPT ![s] = @ + 1] /\ UNCHANGED clear
+            /\ last' = Act("DgEmit", s, "-", "relayed")
+       ELSE IF "DevEmitAfterCloseInClear" \in Dev
+         THEN /\ dout' = [dout EXCEPT ![s] = @ + 1]
+              /\ clear' = IF enc[s] THEN clear + 1 ELSE clear
+              /\ last' = Act("DgEmit", s, "-", "relayed-after-close")
+         ELSE /\ UNCHANGED <<dout, clear>>
+              /\ last' = Act("DgEmit", s, "-", "dropped")
+  /\ UNCHANGED <<enabled, hup, peerUp, tab, byreq, obj, sock, rl, exp, pend, enc, ackN, errN, closeN, din, ndg, nerr, ghost>>
 
 (* ---- time ------------------------------------------------------------------- *)
 IdleTick ==
   /\ hup
   /\ exp' = [s \in Slots |-> exp[s] \/ obj[s] \in Live]
-  /\ UNCHANGED <<enabled, hup, peerUp, tab, byreq, obj, sock, rl, pend, enc, ackN, errN, closeN, din, dout, ndg, nerr,
+  /\ UNCHANGED <<aux, enabled, hup, peerUp, tab, byreq, obj, sock, rl, pend, enc, ackN, errN, closeN, din, dout, ndg, nerr,
                  ghost>>
   /\ last' = Act("IdleTick", "-", "-", "ok")
 
@@ -227,7 +269,7 @@ Cleanup ==
      /\ life' = [s \in Slots |-> IF life[s] \in Live /\ exp[s] THEN "Closed" ELSE life[s]]
      /\ why' = [s \in Slots |-> IF life[s] \in Live /\ exp[s] THEN "idle" ELSE why[s]]
      /\ last' = Act("Cleanup", "-", "-", IF X = {} THEN "none" ELSE "closed")
-  /\ UNCHANGED <<enabled, hup, peerUp, exp, pend, enc, ackN, errN, din, dout, ndg, nerr>>
+  /\ UNCHANGED <<aux, enabled, hup, peerUp, exp, pend, enc, ackN, errN, din, dout, ndg, nerr>>
 
 (* ---- CLOSE frame ------------------------------------------------------------ *)
 CloseFromPeer(s) ==
@@ -239,7 +281,7 @@ CloseFromPeer(s) ==
             /\ last' = Act("CloseFromPeer", s, "-", "noop")
        ELSE /\ RemoveAt(s, Look(s))
             /\ last' = Act("CloseFromPeer", s, "-", "ok")
-  /\ UNCHANGED <<enabled, hup, peerUp, exp, pend, enc, ackN, errN, closeN, din, dout, ndg, nerr>>
+  /\ UNCHANGED <<aux, enabled, hup, peerUp, exp, pend, enc, ackN, errN, closeN, din, dout, ndg, nerr>>
 
 (* ---- Handler.Close ---------------------------------------------------------- *)
 HandlerClose ==
@@ -251,17 +293,17 @@ HandlerClose ==
      /\ rl' = Fn(FALSE)                                     \* every read loop ends with the handler's context
   /\ life' = [s \in Slots |-> IF life[s] \in Live THEN "Closed" ELSE life[s]]
   /\ why' = [s \in Slots |-> IF life[s] \in Live THEN "handler" ELSE why[s]]
-  /\ UNCHANGED <<enabled, peerUp, exp, pend, enc, ackN, errN, closeN, din, dout, ndg, nerr>>
+  /\ UNCHANGED <<aux, enabled, peerUp, exp, pend, enc, ackN, errN, closeN, din, dout, ndg, nerr>>
   /\ last' = Act("HandlerClose", "-", "-", "ok")
 
 PeerGone(p) ==
   /\ p \in GoneP /\ peerUp[p] /\ peerUp' = [peerUp EXCEPT ![p] = FALSE]
-  /\ UNCHANGED <<enabled, hup, tab, byreq, obj, sock, rl, exp, pend, enc, ackN, errN, closeN, din, dout, ndg, nerr, ghost>>
+  /\ UNCHANGED <<aux, enabled, hup, tab, byreq, obj, sock, rl, exp, pend, enc, ackN, errN, closeN, din, dout, ndg, nerr, ghost>>
   /\ last' = Act("PeerGone", p, "-", "ok")
 
 Next ==
   \/ \E s \in Slots : \/ \E m \in Modes : OpenBegin(s, m)
-                      \/ OpenAck(s) \/ DgOut(s) \/ CloseFromPeer(s)
+                      \/ OpenAck(s) \/ DgOut(s) \/ DgArrive(s) \/ DgEmit(s) \/ CloseFromPeer(s)
                       \/ \E rep \in BOOLEAN : DgIn(s, rep)
   \/ IdleTick \/ Cleanup \/ HandlerClose
   \/ \E p \in Peers : PeerGone(p)
@@ -306,9 +348,12 @@ OpenAnswered ==
 NoRelayUnlessLive ==
   [][\A s \in Slots : (din'[s] > din[s] \/ dout'[s] > dout[s]) => life[s] \in Live]_vars
 
+\* a datagram relayed towards the peer is always encrypted under the session's key
+NoClearText == clear = 0
+
 \* a datagram is accounted to the session it was addressed to / whose socket it reached
 ReplyToRequester ==
-  [][\A s \in Slots : (last'.act \in {"DgIn", "DgOut"} /\ last'.s = s)
+  [][\A s \in Slots : (last'.act \in {"DgIn", "DgOut", "DgEmit"} /\ last'.s = s)
         => \A x \in Slots \ {s} : din'[x] = din[x] /\ dout'[x] = dout[x]]_vars
 
 State == [enabled |-> enabled, hup |-> hup, peerUp |-> peerUp, look |-> [s \in Slots |-> Look(s)], byreq |-> byreq,
